@@ -919,7 +919,7 @@ func ruleCMP5(c *Ctx) []Ob {
 	})
 	want := map[string]string{
 		"Int": "int64", "Int8": "int64", "Int16": "int64", "Int32": "int64", "Int64": "int64",
-		"Uint": "uint64", "Uint8": "uint64", "Uint16": "uint64", "Uint32": "uint64", "Uint64": "uint64",
+		"Uint": "uint64", "Uint8": "uint64", "Uint16": "uint64", "Uint32": "uint64", "Uint64": "uint64", "Uintptr": "uint64",
 		"Float32": "float64", "Float64": "float64", "String": "string", "Bool": "bool",
 		"Struct": "map[string]interface{}", "Map": "map[string]interface{}",
 		"Slice": "[]interface{}", "Array": "[]interface{}",
@@ -2890,17 +2890,7 @@ func ruleEMPTY3(c *Ctx) []Ob {
 func ruleCMP11(c *Ctx) []Ob {
 	o := newObs(c, "CMP11")
 	toF := c.lookupFunc("util", "ToFloat64")
-	isFloatCmp := func(g *ssa.Function) bool {
-		if g == nil || len(g.Params) != 2 || g.Signature.Results().Len() != 1 {
-			return false
-		}
-		for _, p := range g.Params {
-			if b, ok := p.Type().Underlying().(*types.Basic); !ok || b.Kind() != types.Float64 {
-				return false
-			}
-		}
-		return isIntType(g.Signature.Results().At(0).Type())
-	}
+	isFloatCmp := func(g *ssa.Function) bool { return c.isFloatComparator(g, 0) }
 	n := 0
 	var fns []*ssa.Function
 	for f := range c.comparatorFuncs() {
